@@ -119,10 +119,14 @@ pub fn meta(prop: &str, thorough: bool) -> Meta {
         "C14" => c14::meta(thorough),
         "C15" => c15::meta(thorough),
         "C16" => c16::meta(thorough),
-        "C17" => (
-            "E2: state = fork() snapshot of the real process after a history of calls; transition = one more apply() call from a 120-call alphabet (40 rules x 3 data covering every operator family, with size-dependent 'big' variants); every call compared with its outcome as the first call in a fresh snapshot (value, Err-ness, log lines, inputs intact); all histories up to depth 2 (3 thorough). E3: state = position of every thread in its sequence of hook points; transition = one scheduling decision at a hook point; stateless DFS with preemption bound 0,1,(2,3) over ~180 two- and three-thread harnesses on shared Arc<Value> inputs; every complete schedule compared with the isolated outcomes; non-trivial = every history / schedule; distinct = distinct history / schedule".into(),
-            json!({"history_depth": if thorough { 3 } else { 2 }, "history_alphabet": 120, "preemption_bounds": if thorough { "pairs 2, hand-picked 3, deep chains 1" } else { "pairs 1, hand-picked 2, deep chains 1" }, "hook_points": ["Parsed::from_value", "Parsed::evaluate", "Operator::execute", "LazyOperator::execute", "DataOperator::execute", "log"]}),
-        ),
+        "C17" => {
+            let (mr, md) = (crate::history::rules().len(), crate::history::datas().len());
+            let (cr, cd) = (crate::history::coercion_rules().len(), crate::history::coercion_datas().len());
+            (
+                format!("E2: state = fork() snapshot of the real process after a history of calls; transition = one more apply() call from an alphabet: main = {} rules x {} data ({} calls: every operator family, size-dependent 'big' variants, string indexing, prefix-twin keys, error paths), coercion = {} rules x {} data ({} calls: the same ambiguous operand under every coercion family); every call compared with its outcome as the first call in a fresh snapshot (value, Err-ness, log lines, inputs intact); all histories up to depth 2 (thorough: depth 3 over a core of each alphabet). E3: state = position of every thread in its sequence of scheduling points; transition = one scheduling decision; stateless DFS with preemption bound 0,1,(2,3) over ~200 two- and three-thread harnesses on shared Arc<Value> inputs at hook points, and with bound 0,1 at every function entry of the instrumented tree; every configuration warm (one process) and cold (every schedule in a forked child of a process that never evaluated anything); every complete schedule compared with the isolated outcomes, then every call repeated sequentially (aftermath); non-trivial = every history / schedule; distinct = distinct history / schedule", mr, md, mr * md, cr, cd, cr * cd),
+                json!({"history_depth": if thorough { 3 } else { 2 }, "history_alphabet_main": mr * md, "history_alphabet_coercion": cr * cd, "preemption_bounds": if thorough { "pairs 2, hand-picked 3, deep chains 1, function-entry 1" } else { "pairs 1, hand-picked 2, deep chains 1, function-entry 1" }, "hook_points": ["Parsed::from_value", "Parsed::evaluate", "Operator::execute", "LazyOperator::execute", "DataOperator::execute", "log", "(fine build) every function entry"]}),
+            )
+        }
         "C18" => (
             "choice tree: binary (debug; thorough also release) -> rule text -> data text -> delivery form (argument / argument + junk on stdin / stdin without argument / stdin with '-'); deep nesting around the parser limit; large documents; chains r1 -> r2 over the valid texts; leaf = one run of the real binary whose stdout and exit status are compared with the library in-process; non-trivial = every run; distinct = distinct (argv, stdin)".into(),
             json!({"rule_texts": crate::boundary::rule_texts(thorough).len(), "data_texts": crate::boundary::data_texts(thorough).len(), "forms": 4}),
@@ -142,7 +146,7 @@ pub fn meta(prop: &str, thorough: bool) -> Meta {
         rule,
         bounds,
         engines: match prop {
-            "C17" => json!(["E2 history explorer: explicit-state DFS, states are fork() snapshots of the real process", "E3 schedule explorer: preemption-bounded stateless DFS over real threads at verif_hooks points", "proviso (thorough): free-running thread bodies under miri's data-race detector"]),
+            "C17" => json!(["E2 history explorer: explicit-state DFS, states are fork() snapshots of the real process", "E3 schedule explorer: preemption-bounded stateless DFS over real threads at verif_hooks points and at function entries (-Z instrument-mcount), warm and cold start, aftermath check", "proviso (thorough): free-running thread bodies under miri's data-race detector"]),
             "C18" => json!(["E4 boundary explorer: the real jsonlogic binary built from the working tree, oracle = library in-process"]),
             "C19" => json!(["E4 boundary explorer: the real Python package built from the working tree, oracle = library through `jlmc oracle`", "E2 at the wrapper level: os.fork() snapshots of the interpreter"]),
             "C01" => json!(["E1 term explorer (totality only) in several build profiles, isolated workers with crash / hang localisation", "E4 boundary explorers (CLI, Python)"]),
